@@ -233,7 +233,7 @@ class Ctx:
     def split_lines(self, path, tag, n):
         """split the lines of a TLC output that start with <<"tag" into n files"""
         prefix = '<<"%s", ' % tag
-        outs = [open(os.path.join(self.work, "%s.part%d" % (os.path.basename(path), i)), "w") for i in range(n)]
+        outs = [open(os.path.join(self.work, "%s.%s.part%d" % (os.path.basename(path), tag, i)), "w") for i in range(n)]
         k = 0
         for line in open(path, errors="replace"):
             if line.startswith(prefix):
